@@ -24,6 +24,12 @@ A  written attributes (universe ATTR): an attribute of a written structure may c
    ! | positions, one cell per line and || / !! separated).  Expected map = TreeOf = the written value, what
    stands between the ONE pair of delimiters.  TLC also says whether a page is inside the statement's
    quantifier (`strict`: URL-safe values): only then a disagreement is a VIOLATION, otherwise DRIFT.
+N  written NAMES (family NAME inside the ATTR worker): the name of an attribute may be written character by
+   character too ([nw, w, q, eq]).  TLC carries a per-site table of the characters a name may hold besides
+   letters and digits (ParserStruct.NameCharsAt: start tags - : _ . ; table positions additionally
+   ~ ; , ( ) ? @ + * $ % & #) and enumerates one such character inside the name / at its end / twice x the
+   delimiters of the value x the rest of the map x every site.  Expected map = the written map (the name is
+   everything in front of the '=').  strict only for names over letters, digits, - . _ ~ : ; else DRIFT.
 DRIFT: the real tree differs from the twin's tree (exact comparison) although the property holds.
 """
 from __future__ import annotations
@@ -268,7 +274,7 @@ def argtext(largs) -> str:
     return "|".join("".join(ptree2.concretise(x["s"]) if "s" in x else "<" + x["kind"] + ">" for x in a) for a in largs)
 
 
-NOT_STRICT = "attribute value outside the URL-safe set of the statement's quantifier: DRIFT, not a violation"
+NOT_STRICT = "attribute name / value outside the URL-safe set of the statement's quantifier: DRIFT, not a violation"
 
 
 def attr_nodes(t, out=None) -> list:
@@ -303,6 +309,14 @@ def attr_note(exp, got) -> str:
                                "the ONE pair of delimiters; a quote character of the other kind, wherever it stands, belongs to it)")
                     parts.append(f"{n} is written {ea[n]!r} but parsed as {ga[n]!r}{how}")
             parts += [f"{n}={ga[n]!r} was not written" for n in ga if n not in ea]
+            for n in ea:
+                # a written name that came back in pieces (presentation only; the verdict is TLC's)
+                pieces = [g for g in ga if g not in ea and g and g in n]
+                if n not in ga and pieces:
+                    cut = sorted({c for c in n if not any(c in g for g in pieces)})
+                    parts.append(f"the written name {n!r} was cut into {pieces!r} at {''.join(cut)!r}: in a table position "
+                                 "(and wherever parse_attrs reads an attribute string) a name is everything in front of the '=' "
+                                 "that cannot end a name, not only the characters HTML start tags accept")
             return f": attribute map of {k} is not exactly the written map: " + "; ".join(parts)
     return ""
 
@@ -501,6 +515,34 @@ def write_attrs(rng, x, site="table"):
                 write_attrs(rng, v, site)
 
 
+# written NAMES for the random pages: plain words and one / two characters a name may hold at the site (the
+# admissibility is decided by TLC: ParserStruct.NameCharsAt; an inadmissible name is skipped there)
+N_WORDS = ["d", "k1", "x", "lang", "a", "b2", "7"]
+N_CHARS = {"tag": ["-", "_", ".", ":"],
+           "table": ["-", "_", ".", ":", "~", "~", "~", ";", ",", "(", ")", "?", "@", "+", "*", "$", "%", "&", "#"]}
+
+
+def write_names(rng, x):
+    """Post-pass over random pages: some WRITTEN attributes get a written name (own random stream)."""
+    if isinstance(x, list):
+        for y in x:
+            write_names(rng, y)
+    elif isinstance(x, dict):
+        for key, v in x.items():
+            if key in ("attrs", "tattrs", "cattrs", "rattrs") and isinstance(v, list):
+                chars = N_CHARS["tag" if x.get("k") == "H" else "table"]
+                for i, a in enumerate(v):
+                    if "w" in a and rng.random() < 0.3:
+                        nw = [rng.choice(N_WORDS[:6])]
+                        for _ in range(rng.choice([1, 1, 2])):
+                            nw.append(rng.choice(chars))
+                            if rng.random() < 0.8:
+                                nw.append(rng.choice(N_WORDS))
+                        v[i] = {"nw": nw, "w": a["w"], "q": a["q"], "eq": a["eq"]}
+            else:
+                write_names(rng, v)
+
+
 # ---------------------------------------------------------------------------
 def run(tier: str) -> int:
     o = Outcome(PID, tier)
@@ -515,11 +557,16 @@ def run(tier: str) -> int:
               "families) contribute one case per parse(); written attributes (ATTR): value characters (other quote at "
               "start / end / both / inside / alone, blanks, = > &amp; URL punctuation, empty) x delimiters (\" ' none, "
               "blanks around =) x rest of the map x site (start tag alone / in text / in a cell; {| |+ |- ! | of a 2x2 "
-              "table, both separator styles) is one case each; V: seeded random pages (40 % of their attributes with "
-              "random written values). distinct_nontrivial = distinct "
+              "table, both separator styles) is one case each; written names (NAME): one character of the per-site table "
+              "of name characters (start tags - : _ . ; table positions also ~ ; , ( ) ? @ + * $ % & #) inside the name / "
+              "at its end / twice x delimiters of the value x rest of the map x the same sites is one case each; V: seeded random pages (40 % of their attributes with "
+              "random written values, 30 % of those with a random written name). distinct_nontrivial = distinct "
               "shapes (kinds, tags, attribute counts, nesting; texts ignored) of the real trees.")
     o.assumptions = [
         "attribute names: letters, digits, - _ . ; values additionally ~ (URL-safe); one attribute map has distinct names",
+        "written attribute names: start with a letter / digit; strict (VIOLATION) when made of letters, digits, - . _ ~ : ; "
+        "the other characters of the per-site table (; , ( ) ? @ + * $ % & # in table positions) are predicted too but "
+        "outside the statement's URL-safe names: DRIFT; in start tags only - : _ . are names at all (the token regexp)",
         "written attribute values: strict (VIOLATION) when made of letters, digits and ' = : ; , . - _ ~ ( ) / ? @ + * $ % "
         "(URL-safe; the apostrophe is, the double quote, blanks, < > & are not: DRIFT); not covered: a value holding its own "
         "delimiter, unquoted values with quotes / blanks / = / >, two adjacent apostrophes (also the empty value written '': "
@@ -537,6 +584,7 @@ def run(tier: str) -> int:
         rng = random.Random(common.seed() * 7919 + 3)
         pages = [rpage(rng, thorough) for _ in range(4000 if thorough else 320)]
         write_attrs(random.Random(common.seed() * 7919 + 77), pages)     # own stream: the pages stay what they were
+        write_names(random.Random(common.seed() * 7919 + 78), pages)     # own stream again: the values stay too
         pf = d / "pages.json"
         pf.write_text(json.dumps(pages))
         grid = "GT" if thorough else "GQ"
@@ -557,7 +605,9 @@ def run(tier: str) -> int:
 
         # (c) with a parse_attrs that takes the delimiters off a quoted value in a way that is right for every value
         # made of letters only (what-if switches; shows that the universe ATTR is not vacuous).
-        demos = ["Demo_ParserStruct_asis", "Demo_ParserStruct_key_linebreaks", "Demo_ParserStruct_attr_greedy"]
+        # (d) with a parse_attrs whose NAME class is the positive class of start tags (family NAME is not vacuous)
+        demos = ["Demo_ParserStruct_asis", "Demo_ParserStruct_key_linebreaks", "Demo_ParserStruct_attr_greedy",
+                 "Demo_ParserStruct_attr_namechars"]
         if thorough:
             demos += ["Demo_ParserStruct_key_trims", "Demo_ParserStruct_key_kind",
                       "Demo_ParserStruct_attr_everywhere", "Demo_ParserStruct_attr_anyquote"]
@@ -663,11 +713,31 @@ def selftest() -> int:
         wb2["children"][0]["attrs"][0]["v"] = "the dogs"
         pa, pb = wpage(["'", "w1", "'"]), wpage(["the", "SP", "dogs", "'"])
         _, wbad = trace_items([], tags_file, [(0, pa, wa), (1, pa, wa2), (2, pb, wb), (3, pb, wb2)])
+        # written names: a recorded map whose name came back cut at a character must be rejected, strictly for the
+        # URL-safe '~', as DRIFT material for '@'
+        def npage(ch):
+            cell = {"kind": "data", "attrs": [{"nw": ["d", ch, "1"], "w": ["7"], "q": "none", "eq": False}], "content": [T("x1")]}
+            return [{"k": "TB", "tattrs": [], "hascap": False, "cattrs": [], "caption": [], "rows": [{"rattrs": [], "cells": [cell]}],
+                     "style": {"sep": "line", "sp": True, "q": "dq", "first": True, "hbar": False}}]
+
+        ctx = ptree2.new_ctx(d, "n")
+        na = ptree2.node(ptree2.parse(ctx, "{|\n|-\n| d~1=7 | x1\n|}"))
+        nb = ptree2.node(ptree2.parse(ctx, "{|\n|-\n| d@1=7 | x1\n|}"))
+        ctx.db_conn.close()
+        na2, nb2 = copy.deepcopy(na), copy.deepcopy(nb)
+        for tr in (na2, nb2):
+            first(tr, "TABLE_CELL")["attrs"] = [{"n": "d", "v": ""}, {"n": "1", "v": "7"}]
+        _, nbad = trace_items([], tags_file, [(0, npage("~"), na), (1, npage("~"), na2), (2, npage("@"), nb), (3, npage("@"), nb2)])
     badidx = set(bad)
     print("written attribute: <span title=\"'w1'\"> / <span title=\"the dogs'\">")
     for i, name in enumerate(["own tree", "value without its apostrophes", "own tree (blank inside)", "value without its apostrophe (blank inside)"]):
         print(f"  {name}: " + (f"rejected (strict={wbad[i]['strict']})" if i in wbad else "accepted"))
     if set(wbad) != {1, 3} or wbad[1]["strict"] is not True or wbad[3]["strict"] is not False:
+        return 1
+    print("written name: | d~1=7 | x1  /  | d@1=7 | x1")
+    for i, name in enumerate(["own tree (~)", "name cut at ~ (d, 1=7)", "own tree (@)", "name cut at @"]):
+        print(f"  {name}: " + (f"rejected (strict={nbad[i]['strict']})" if i in nbad else "accepted"))
+    if set(nbad) != {1, 3} or nbad[1]["strict"] is not True or nbad[3]["strict"] is not False:
         return 1
     print("text:", repr(text))
     for i, (name, _) in enumerate(variants):
